@@ -228,12 +228,40 @@ func C10(c *Ctx) {
 	// predicate agreement across the three dirtyState.Range callbacks
 	nPred := 0
 	for _, spec := range []string{"internal/ledger.(*SimpleAccount).getStateJournalAndComputeHash", "internal/ledger.(*SimpleLedger).Commit"} {
-		fn := c.P.Fn(spec)
-		if fn == nil {
+		if c.P.Fn(spec) == nil {
 			r.Anchor("R10.2", spec)
+		}
+	}
+	// every callback handed to dirtyState.Range anywhere in the ledger package (the selection may live in a helper)
+	var rangeCallbacks []*ssa.Function
+	cbOwner := map[*ssa.Function]string{}
+	for _, fn := range c.P.ModuleFuncs(true) {
+		if core.PkgOf(fn) != ledgerPkg {
 			continue
 		}
-		for _, cb := range fn.AnonFuncs {
+		for _, call := range core.Calls(fn) {
+			if core.CalleeName(call) != "(*sync.Map).Range" {
+				continue
+			}
+			if _, fld, _, ok := core.FieldOf(core.Receiver(call)); !ok || fld != "dirtyState" {
+				continue
+			}
+			args := call.Common().Args
+			if mc, ok := args[len(args)-1].(*ssa.MakeClosure); ok {
+				cb := mc.Fn.(*ssa.Function)
+				rangeCallbacks = append(rangeCallbacks, cb)
+				top := fn
+				for top.Parent() != nil {
+					top = top.Parent()
+				}
+				cbOwner[cb] = top.Name()
+			}
+		}
+	}
+	for _, spec := range []string{"dirtyState.Range callbacks"} {
+		_ = spec
+		for _, cb := range rangeCallbacks {
+			spec := "internal/ledger." + cbOwner[cb]
 			// a callback of dirtyState.Range: effects (map update / batch Put/Delete) behind !bytes.Equal(orig, val)
 			es := condEdges(cb, func(f core.Fact, ifi *ssa.If) (bool, int) {
 				if f.Kind != core.FBool {
@@ -245,8 +273,16 @@ func C10(c *Ctx) {
 				return false, 0
 			})
 			isEff := func(in ssa.Instruction) bool {
-				if _, ok := in.(*ssa.MapUpdate); ok {
-					return true
+				if mu, ok := in.(*ssa.MapUpdate); ok {
+					// recording the previous (origin) value of a key: the journal's selection
+					return core.Mentions(mu.Value, func(v ssa.Value) bool {
+						cc, ok := v.(*ssa.Call)
+						if !ok || core.CalleeName(cc) != "(*sync.Map).Load" {
+							return false
+						}
+						_, fld, _, okf := core.FieldOf(core.Receiver(cc))
+						return okf && fld == "originState"
+					})
 				}
 				if call, ok := in.(ssa.CallInstruction); ok {
 					if o := core.CalleeObj(call); o != nil && (o.Name() == "Put" || o.Name() == "Delete") && strings.Contains(core.CalleeName(call), "storage.") {
